@@ -222,6 +222,36 @@ pub fn run(p: &Params, rep: &mut Report) {
                 continue;
             }
             let ectx = json!({"context": ctx, "edit": what, "resource": rid, "original_text": orig, "edited_text": edited});
+            // the store-level verdict counts what the per-annotation expectations add up to
+            {
+                let mut want = (0usize, 0usize, 0usize);
+                let mut judged = true;
+                for (b, a) in before.iter().zip(after.iter()) {
+                    if b.0 != a.0 {
+                        judged = false;
+                    }
+                    if b.1.is_empty() {
+                        // no validation information was stored for it
+                        want.2 += 1;
+                    } else if b.1 != a.1 {
+                        want.1 += 1;
+                    } else {
+                        want.0 += 1;
+                    }
+                }
+                if judged {
+                    rep.eval();
+                    if let Ok(got) = guard(|| {
+                        let r = loaded.validate_text(true);
+                        (r.valid(), r.invalid(), r.missing())
+                    }) {
+                        if got != want {
+                            rep.violation(format!("C18/edit/store-level-counts-differ/{}", modename), json!({"context": ectx, "valid_invalid_missing": [got.0, got.1, got.2], "expected": [want.0, want.1, want.2]}));
+                            continue;
+                        }
+                    }
+                }
+            }
             for (b, a) in before.iter().zip(after.iter()) {
                 if b.0 != a.0 || b.1.is_empty() {
                     continue;
